@@ -17,8 +17,8 @@ META = {
                  "step-by-step hasher invocations, adversarial block classes) + spec/shwap/ShwapIDs.tla (byte-level id<->CID); "
                  "binding: enumerated (block class, requester state) cases, served blocks and TLC behaviours (counterexamples of the "
                  "strict invariants, simulation) replayed on the real bitswap.Fetch / multihash hasher / Blockstore with gates",
-    "level_text": "Model checking: FilledOnlyIfVerified, RejectedLeavesUnfulfilled, IdCidBijective, ServedBlockAccepted, LockReleased, "
-                  "RegistryEmptyAtEnd hold in every reachable state of the bounded model. On the real code, through the public API only "
+    "level_text": "Model checking: FilledOnlyIfVerified, RejectedLeavesUnfulfilled, IdCidBijective, RegistryKeyInjective, ServedBlockAccepted, "
+                  "HasherAcceptsOnlyVerified, NoPanic, StoredOnlyVerified, LockReleased, RegistryEmptyAtEnd hold in every reachable state of the bounded model. On the real code, through the public API only "
                   "(cid.Prefix.Sum -> registered hasher while a real Fetch over a fake exchange is pending): every enumerated case for "
                   "every sample/row/row-namespace/range identifier of seeded squares (ODS 1,2,4) leaves the requester's container empty "
                   "or equal to the committed data; every Blockstore.Get block -- served from the in-memory accessor and from a real store.Store as recent cache, reopened ODS+Q4 files, ODS only and Q4-pruned -- is accepted and delivered; id->CID->id is the identity on "
@@ -28,14 +28,16 @@ META = {
                   "3 (thorough) messages, squares of ODS width <= 4, one namespace per square. The fake exchange implements Bitswap's "
                   "contract (a block reaches Fetch only if prefix.Sum returned a wanted CID); real Bitswap sessions/network are not run. "
                   "Hasher sub-steps before the registry lookup cannot be interleaved on the real code (no hook): behaviours whose lock order "
-                  "differs from the lookup order are not replayed. The strict reading 'any other bytes are rejected' is checked separately: its "
-                  "model counterexamples count only when reproduced on the real code (listed known findings). 'Fetch returns nil with an unfilled "
-                  "Block' is outside the literal statement and reported under its own signature. Byte-level mutations are sampled.",
+                  "differs from the lookup order are not replayed. DoneMeansFilled ('Fetch returned nil => filled') is violated by the model of the "
+                  "current code through a stale registry entry: the counterexample counts only when reproduced on the real code (known finding); "
+                  "it is outside the literal statement and has its own signature. Scenario witnesses (duplicate leaves first, third Fetch in the gap, "
+                  "sample and legacy range identifier with equal identifier bytes fetched concurrently) are replayed on every run; after a visible "
+                  "registry divergence the replay evaluates only the property's oracles. Byte-level mutations are sampled.",
     "design_ref": "DESIGN.md §5 C10",
 }
 
 WANTS = {"Wants2": {"f1": ["a", "b"], "f2": ["a"]}, "WantsSame": {"f1": ["a"], "f2": ["a"]},
-         "Wants3": {"f1": ["a"], "f2": ["a"], "f3": ["a"]}}
+         "Wants3": {"f1": ["a"], "f2": ["a"], "f3": ["a"]}, "WantsCross": {"f1": ["a"], "f2": ["b"]}}
 
 
 def _unset(v):
@@ -119,24 +121,36 @@ def run(ctx):
     if wide.violated != "IdCidBijective":
         ctx.inconclusive("model sensitivity lost: wide legacy range ids do not violate IdCidBijective")
 
-    # 4. the strict reading: counterexamples of the model, to be reproduced on the real code
+    # 4. sensitivity of the strict invariants (they HOLD in the configurations above since repo commit 64c8839):
+    #    with the old "already populated => nil" shortcut the model must violate them
+    q = "_q" if ctx.quick else ""
+    for cfg, inv in (("strict", "NoPanic"), ("strict_store", "StoredOnlyVerified"), ("strict_hasher", "HasherAcceptsOnlyVerified")):
+        s = ctx.tlc("bitswap/MCBitswap.tla", "bitswap/MCBitswap_%s%s.cfg" % (cfg, q), must_pass=False, count=False, workers=16,
+                    timeout=600, deadlock=False)
+        if s.violated != inv:
+            ctx.inconclusive("model sensitivity lost: PopulatedShortcut=TRUE does not violate %s" % inv)
+    ka = ctx.tlc("bitswap/MCBitswap.tla", "bitswap/MCBitswap_keyalias.cfg", must_pass=False, count=False, workers=2, timeout=120,
+                 deadlock=False)
+    if ka.violated != "RegistryKeyInjective":
+        ctx.inconclusive("model sensitivity lost: a registry keyed by identifier bytes does not violate RegistryKeyInjective")
+    # 4a. DoneMeansFilled: violated by the model of the current code (stale registry entry); the counterexample
+    #     counts only when reproduced on the real code
     behaviours = []
-    for cfg, inv in (("strict", "NoPanic"), ("strict_store", "StoredOnlyVerified"), ("strict_done", "DoneMeansFilled"),
-                     ("strict_hasher", "HasherAcceptsOnlyVerified")):
-        s = ctx.tlc("bitswap/MCBitswap.tla", "bitswap/MCBitswap_%s%s.cfg" % (cfg, "_q" if ctx.quick else ""), must_pass=False,
-                    count=False, workers=16, timeout=600, deadlock=False)
-        if s.violated == inv and s.trace:
-            b = behaviour_from_trace(s, WANTS["WantsSame"], "cex_" + inv, "strict_" + inv)
-            if b is None:
-                ctx.inconclusive("cannot read the counterexample of %s" % inv)
-            else:
-                behaviours.append(b)
-        elif s.ok:
-            ctx.note("strict invariant %s holds in the model (no counterexample to replay)" % inv)
+    s = ctx.tlc("bitswap/MCBitswap.tla", "bitswap/MCBitswap_strict_done%s.cfg" % q, must_pass=False, count=False, workers=16,
+                timeout=600, deadlock=False)
+    if s.violated == "DoneMeansFilled":
+        b = behaviour_from_trace(s, WANTS["WantsSame"], "cex_DoneMeansFilled", "strict_DoneMeansFilled")
+        if b is None:
+            ctx.inconclusive("cannot read the counterexample of DoneMeansFilled")
+        else:
+            behaviours.append(b)
+    elif s.ok:
+        ctx.note("DoneMeansFilled holds in the model (no counterexample to replay)")
     # 4b. scenario witnesses: histories the replay must contain whatever the seed (TLC reports the
     #     negated goal as "violated"; DoneMeansFilled and FilledOnlyIfVerified hold along them)
     n_scen = 0
-    for cfg, goal, wants in (("scen_dupleaves", "GoalDupLeavesFirst", "WantsSame"), ("scen_thirdgap", "GoalThirdInGap", "Wants3")):
+    for cfg, goal, wants in (("scen_dupleaves", "GoalDupLeavesFirst", "WantsSame"), ("scen_thirdgap", "GoalThirdInGap", "Wants3"),
+                             ("scen_crossa", "GoalCross", "WantsCross"), ("scen_crossb", "GoalCross", "WantsCross")):
         s = ctx.tlc("bitswap/MCBitswap.tla", "bitswap/MCBitswap_%s.cfg" % cfg, must_pass=False, count=False, workers=8,
                     timeout=300, deadlock=False)
         b = behaviour_from_trace(s, WANTS[wants], cfg, cfg) if s.violated == goal else None
@@ -186,15 +200,13 @@ def run(ctx):
     for need in ("cases_run", "cases_full_flow", "served_sample", "served_row", "served_rnd", "served_range", "served_store_recent", "served_store_odsq4",
                  "served_store_ods", "served_store_q4pruned", "served_store_memory", "served_store_ok",
                  "served_rnd_present", "served_rnd_absent-inside", "served_rnd_outside_refused", "mutated_blocks",
-                 "behaviours_replayed", "behaviours_replayed_scen_dupleaves", "behaviours_replayed_scen_thirdgap", "cid_roundtrips_ok", "cid_rejected", "cid_id_refused"):
+                 "behaviours_replayed", "behaviours_replayed_scen_dupleaves", "behaviours_replayed_scen_thirdgap", "behaviours_replayed_scen_crossa",
+                 "behaviours_replayed_scen_crossb", "cid_roundtrips_ok", "cid_rejected", "cid_id_refused"):
         if cnt.get(need, 0) < 1:
             ctx.inconclusive("vacuity: driver counter %s is zero (%s)" % (need, cnt))
     # a model counterexample that the real code did not reproduce: the model over-approximates (rule 1)
     sigs = (rep.get("summary", {}) or {}).get("violation_signatures", {}) or {}
-    expect = {"strict_NoPanic": "C10/dup-fetch/panic-on-unverified-block-passed-by-populated-entry",
-              "strict_StoredOnlyVerified": "C10/fetch/unverified-block-stored-after-populated-entry-passed-it",
-              "strict_DoneMeansFilled": "C10/fetch/returns-nil-with-unfilled-block-after-stale-registry-entry",
-              "strict_HasherAcceptsOnlyVerified": "C10/hasher/unverified-bytes-accepted-for-populated-request"}
+    expect = {"strict_DoneMeansFilled": "C10/fetch/returns-nil-with-unfilled-block-after-stale-registry-entry"}
     for b in behaviours:
         if b["source"] in expect and expect[b["source"]] not in sigs:
             ctx.inconclusive("model counterexample %s was not reproduced on the real code (model over-approximates, or the code changed: update "
